@@ -1738,7 +1738,8 @@ def pool_violations(descs: List[Dict[str, Any]], objs: List[Any], obs: Optional[
                         if (ri == rj) != exp or (hash(ri) == hash(rj)) != exp:
                             report("case_eq_iff", [i, j], expected_equal=exp, resources_equal=bool(ri == rj),
                                    why="Resource(a) == Resource(b) disagrees")
-                if identity_kind and isinstance(oi, FullCaseCitation) and isinstance(oj, FullCitation):
+                if identity_kind and oi is not oj and isinstance(oi, FullCaseCitation) and isinstance(oj, FullCitation):
+                    # (a generated pool may list one text twice: the same object at two positions is not "another citation")
                     if Resource(oi) == Resource(oj):
                         report(identity_kind, [i, j], why="resources of a placeholder-page citation and another citation are equal")
                 # stricter reading, observation only: 'citations with a placeholder page are equal only to themselves'
